@@ -459,6 +459,18 @@ func runC08(c *Check) {
 					okCanon = okSucc != nil && (s.Instr.Block() == okSucc || okSucc.Dominates(s.Instr.Block()))
 				}
 			}
+			// pushDataToHash written in place: a Hash20 local canonicalised from this push on the success edge
+			if !okCanon && okSucc != nil {
+				for _, b := range f.Blocks {
+					for _, in := range b.Instrs {
+						if al, ok := in.(*ssa.Alloc); ok && (b == okSucc || okSucc.Dominates(b)) {
+							if d := canonicalHashData(al); d != nil && (d == data || sharesRoot(d, data)) {
+								okCanon = true
+							}
+						}
+					}
+				}
+			}
 		}
 		c.Decide(okCanon, "R1", key+"#push-canonicalised", call.Pos(), "provenance", nil,
 			"a parsed push goes through pushDataToHash on the success edge", "the parsed push data is not canonicalised with pushDataToHash before comparison")
@@ -485,7 +497,7 @@ func runC08(c *Check) {
 					if !mentionsField(x, fHashes) {
 						return false
 					}
-					if derivesFromCall(y, "spynode.pushDataToHash") != nil {
+					if derivesFromCall(y, "spynode.pushDataToHash") != nil || canonicalHashData(y) != nil {
 						return true
 					}
 					// collector design: the canonical hashes arrive through a parameter / helper result
@@ -559,6 +571,11 @@ func runC08(c *Check) {
 		return false
 	}
 	for _, fk := range []string{"spynode.pushDataToHash", "spynode.(*Node).SubscribePushDatas", "spynode.(*Node).UnsubscribePushDatas"} {
+		if fk == "spynode.pushDataToHash" && c.P.Fn(fk) == nil {
+			// the helper was written in place at its call sites: each site is checked by shape (R1, below)
+			c.Ok("R3", fk+"#canonicalisation", token.NoPos, "shape matching", "no pushDataToHash helper: canonicalisation is checked in place at every use")
+			continue
+		}
 		fn := c.Fn("R3", fk)
 		if fn == nil {
 			continue
@@ -610,7 +627,8 @@ func runC08(c *Check) {
 	if fn := c.Fn("R4", "spynode.(*Node).UnsubscribePushDatas"); fn != nil {
 		for _, st := range storesToField(fn, fHashes) {
 			eq := equalEdge(func(x, y ssa.Value) bool {
-				return derivesFromCall(x, "spynode.pushDataToHash") != nil || derivesFromCall(y, "spynode.pushDataToHash") != nil
+				return derivesFromCall(x, "spynode.pushDataToHash") != nil || derivesFromCall(y, "spynode.pushDataToHash") != nil ||
+					canonicalHashData(x) != nil || canonicalHashData(y) != nil
 			}, true)
 			okBreak := false
 			for _, e := range dominatingEdges(st) {
